@@ -1,4 +1,186 @@
+/-
+C10 — Changing representation never changes which action earns which reward.
+Property theorems only (helper lemmas live in `Lemmas/C10.lean`, the model in `Model/C10.lean`).
+
+Reading of the statement:  for an interaction `I` and its image `J` under a filter (chain),
+`alignedB I J` says `[rewards'(a') for a' in actions'] = [rewards(a) for a in actions]` (a list
+`rewards` is its own observable), the same for `feedbacks`, `actions'.index(action') =
+actions.index(action)` for a logged action that is a member, and `reward`, `probability` unchanged.
+`Cfg.fixed` is the code with the proposed repairs `fixes/C10-*.diff`; `Cfg.asIs` the pinned commit.
+-/
 import CobaVerif.Lemmas.C10
+
 namespace Coba.C10
-theorem placeholder : True := trivial
+
+/-! ### reward look-up -/
+
+/-- `DiscreteReward(as, rs)(as[i]) = rs[i]` on an action *set* -/
+theorem discrete_reward_lookup {as : List Val} {rs : List Rat} (d : Rat) (hd : Distinct as)
+    {i : Nat} {a : Val} {x : Rat} (h : as[i]? = some a) (hx : rs[i]? = some x) :
+    callRew (.discrete as rs d false) a = .ok x := callRew_discrete_of_distinct d hd h hx
+
+/-- `[DiscreteReward(as, rs)(a) for a in as] = rs` -/
+theorem discrete_reward_obs {as : List Val} {rs : List Rat} (d : Rat) (hd : Distinct as)
+    (hl : as.length = rs.length) : obsOf (.discrete as rs d false) as = rs.map Except.ok := obsOf_discrete d hd hl
+
+example : Distinct [catA, catB] := (distinctB_iff _).mp (by decide +kernel)
+
+/-! ### the re-keying mechanisms -/
+
+/-- Flatten / Sparsify / Densify / Noise / Repr's default branch:
+`DiscreteReward(new_actions, [old(a) for a in old_actions])` gives the i-th new action the reward
+of the i-th old action whenever the new representation is injective on the action set -/
+theorem rekey_generic_aligned {r r' : Rew} {old new : List Val} (h : genericRew r old new = .ok r')
+    (hd : Distinct new) : obsEq (obsOf r old) (obsOf r' new) = true := genericRew_aligned h hd
+
+/-- Repr's `BinaryReward` branch: the argmax is moved to the re-represented member -/
+theorem repr_binary_aligned {am : Val} {v : Rat} {old new : List Val} {r' : Rew} {fd : Bool}
+    (h : rekey (.reprStyle fd) (.binary am v) old new = .ok r')
+    (hdo : Distinct old) (hdn : Distinct new) (hl : old.length = new.length) (hm : am ∈ old) :
+    obsEq (obsOf (.binary am v) old) (obsOf r' new) = true := binary_remap_aligned h hdo hdn hl hm
+
+/-- Finalize's `DiscreteReward(actions, list_of_rewards)` -/
+theorem finalize_wrap_obs {b : Bool} {rs : List Rat} {old new : List Val} {r' : Rew}
+    (h : rekey .wrapSeq (.seq b rs) old new = .ok r') (hd : Distinct new) (hl : old.length = new.length) :
+    obsEq (obsOf (.seq b rs) old) (obsOf r' new) = true :=
+  rekey_aligned (by simpa [targetHypB] using (distinctB_iff _).mpr hd) hl h
+
+/-- every policy a filter can choose keeps the observable, under that policy's hypothesis -/
+theorem rekey_policy_aligned {p : Policy} {r r' : Rew} {old new : List Val}
+    (hh : targetHypB p (some r) old new = true) (hl : old.length = new.length)
+    (h : rekey p r old new = .ok r') : obsEq (obsOf r old) (obsOf r' new) = true := rekey_aligned hh hl h
+
+/-! ### logged interactions -/
+
+/-- the logged action stays the same member of the action set -/
+theorem logged_action_index {old new : List Val} {a a' : Val} {k : Nat}
+    (hh : loggedHypB old new (some a) (some a') = true) (hk : indexOf old a = some k) :
+    indexOf new a' = some k := logged_index_kept hh hk
+
+/-! ### one interaction, one filter, a chain -/
+
+theorem plan_aligned {I J : Inter} {p : Plan} (hh : planHypB I p = true) (h : applyPlan I p = .ok J) :
+    alignedB I J = true := applyPlan_aligned hh h
+
+theorem step_aligned (cfg : Cfg) (st : Step) {S S' : State}
+    (hh : (match st with
+           | .batch _ => true
+           | .unbatch => true
+           | _ => primsHypB cfg (expandStep st) S.stream) = true)
+    (h : runStep cfg st S = .ok S') (hs : alignedStreamB S.stream S.stream = true) :
+    alignedStreamB S.stream S'.stream = true := runStep_aligned cfg st hh h hs
+
+/-- Repr, in every pair of modes (as-is or repaired): aligned whenever the encoding is injective on each
+action set (`primsHypB` spells this out per interaction: `distinctB` of the new actions, the
+BinaryReward argmax a member, the logged action re-represented as its member) -/
+theorem repr_aligned (cfg : Cfg) (cc ca : Option Mode) {s s' : List Inter}
+    (hh : primsHypB cfg [.repr cc ca] s = true) (h : runPrim cfg (.repr cc ca) s = .ok s')
+    (hs : alignedStreamB s s = true) : alignedStreamB s s' = true := runPrim_aligned cfg _ hh h hs
+
+theorem flatten_aligned (cfg : Cfg) {s s' : List Inter}
+    (hh : primsHypB cfg [.flatten] s = true) (h : runPrim cfg .flatten s = .ok s')
+    (hs : alignedStreamB s s = true) : alignedStreamB s s' = true := runPrim_aligned cfg _ hh h hs
+
+/-- Densify, look-up or hashing (for *every* hash table): aligned unless two actions collide -/
+theorem densify_aligned (cfg : Cfg) (n : Nat) (m : DMethod) (c a : Bool) {s s' : List Inter}
+    (hh : primsHypB cfg [.densify n m c a] s = true) (h : runPrim cfg (.densify n m c a) s = .ok s')
+    (hs : alignedStreamB s s = true) : alignedStreamB s s' = true := runPrim_aligned cfg _ hh h hs
+
+/-- Noise on contexts/actions, for every noise function and every drawn value -/
+theorem noise_actions_aligned (cfg : Cfg) (nc na : Option NoiseSpec) (drawn : List Rat) {s s' : List Inter}
+    (hh : primsHypB cfg [.noise nc na drawn] s = true) (h : runPrim cfg (.noise nc na drawn) s = .ok s')
+    (hs : alignedStreamB s s = true) : alignedStreamB s s' = true := runPrim_aligned cfg _ hh h hs
+
+theorem finalize_aligned (cfg : Cfg) {s s' : List Inter}
+    (hh : primsHypB cfg (expandStep .finalize) s = true) (h : runPrims cfg (expandStep .finalize) s = .ok s')
+    (hs : alignedStreamB s s = true) : alignedStreamB s s' = true := finalize_aligned' cfg hh h hs
+
+/-- alignment is preserved by every chain of representation filters (induction over the chain),
+for the code as it is and for the repaired code alike, as long as each step's encoding stays
+injective on each action set (`chainHypB`, evaluated by the driver on every generated case) -/
+theorem chain_aligned (cfg : Cfg) (chain : List Step) {S S' : State}
+    (hh : chainHypB cfg chain S = true) (h : runChain cfg chain S = .ok S')
+    (hs : alignedStreamB S.stream S.stream = true) :
+    alignedStreamB S.stream S'.stream = true := runChain_aligned cfg chain hh h hs
+
+/-- non-vacuity: a two-filter chain on a categorical action set meets the hypotheses -/
+example : chainHypB Cfg.fixed [.repr none (some .onehot), .sparsify true true] { stream := wRekey ++ wReprDiscrete } = true
+    ∧ alignedStreamB (wRekey ++ wReprDiscrete) (wRekey ++ wReprDiscrete) = true := by decide +kernel
+
+/-! ### Sparsify and Finalize end to end (repaired code) -/
+
+theorem sparsify_aligned (c a : Bool) (s s' : List Inter)
+    (hself : alignedStreamB s s = true)
+    (hhomR : ∀ I ∈ s, ∀ r, I.rewards = some r → r.isCallable = true → firstCallable (·.rewards) s = true)
+    (hhomF : ∀ I ∈ s, ∀ r, I.feedbacks = some r → r.isCallable = true → firstCallable (·.feedbacks) s = true)
+    (hinj : ∀ I ∈ s, ∀ as, I.actions = some as → Distinct (sparsifyActs a as))
+    (hlog : ∀ I ∈ s, ∀ a0 as k, I.action = some a0 → I.actions = some as → indexOf as a0 = some k → as[k]? = some a0)
+    (hrun : runPrim Cfg.fixed (.sparsify c a) s = .ok s') : alignedStreamB s s' = true :=
+  sparsify_aligned' c a s s' hself hhomR hhomF hinj hlog hrun
+
+theorem finalize_wrap_aligned (s s' : List Inter)
+    (hself : alignedStreamB s s = true)
+    (hacts : ∀ I ∈ s, ∃ as, I.actions = some as)
+    (hinj : ∀ I ∈ s, ∀ as, I.actions = some as → Distinct as)
+    (hlog : ∀ I ∈ s, ∀ a0 as k, I.action = some a0 → I.actions = some as → indexOf as a0 = some k → as[k]? = some a0)
+    (hrun : runPrim Cfg.fixed .wrapSeqs s = .ok s') : alignedStreamB s s' = true :=
+  finalize_wrap_aligned' s s' hself hacts hinj hlog hrun
+
+/-! ### injectivity of the categorical encodings -/
+
+/-- one-hot tuples and strings compare exactly like the categoricals they encode -/
+theorem categorical_encoding_injective {m : Mode} {s t : String} {ls : List String} {a b : Val}
+    (ha : encodeValue m (.cat s ls) = .ok a) (hb : encodeValue m (.cat t ls) = .ok b) :
+    pyEq a b = pyEq (.cat s ls) (.cat t ls) := encodeValue_pyEq ha hb
+
+/-- a set of categorical actions over one level list stays a set under every mode of Repr -/
+theorem repr_scalar_actions_distinct {m : Mode} {ls : List String} {rows enc : List Val}
+    (hcat : ∀ r ∈ rows, ∃ s, r = Val.cat s ls) (h : mapM' (encodeValue m) rows = .ok enc)
+    (hd : Distinct rows) : Distinct enc := encodeValues_distinct hcat h hd
+
+/-! ### Batch / Unbatch -/
+
+/-- the batches partition the stream: their sizes add up to its length … -/
+theorem batch_sizes_sum (k : Nat) (hk : 0 < k) (len : Nat) : (chunkSizes k len len).sum = len :=
+  chunkSizes_sum k hk len len (Nat.le_refl _)
+
+/-- … and every batch is non-empty and at most `k` long -/
+theorem batch_sizes_bound (k : Nat) (hk : 0 < k) (len : Nat) : ∀ x ∈ chunkSizes k len len, 0 < x ∧ x ≤ k :=
+  chunkSizes_bound k hk len len
+
+/-- Batch and Unbatch never touch the interactions themselves -/
+theorem batch_unbatch_stream (cfg : Cfg) (n : Option Nat) (S S1 S2 : State)
+    (h1 : runStep cfg (.batch n) S = .ok S1) (h2 : runStep cfg .unbatch S1 = .ok S2) :
+    S2.stream = S.stream ∧ S2.sizes = none := batch_unbatch_stream' cfg n S S1 S2 h1 h2
+
+/-! ### the pinned commit violates the property: witnesses (replayed on the real code) -/
+
+/-- P18: Sparsify(action=True) keeps `BinaryReward(2)` keyed on the old actions -/
+theorem sparsify_counterexample : keepsAligned Cfg.asIs [.sparsify false true] wRekey = false := by decide +kernel
+example : keepsAligned Cfg.fixed [.sparsify false true] wRekey = true := by decide +kernel
+
+/-- P19: Repr('string','onehot') encodes the logged action with the context mode -/
+theorem repr_logged_counterexample :
+    keepsAligned Cfg.asIs [.repr (some .string) (some .onehot)] wReprLogged = false := by decide +kernel
+example : keepsAligned Cfg.fixed [.repr (some .string) (some .onehot)] wReprLogged = true := by decide +kernel
+
+/-- Repr re-keys a DiscreteReward positionally -/
+theorem repr_discrete_counterexample :
+    keepsAligned Cfg.asIs [.repr none (some .onehot)] wReprDiscrete = false := by decide +kernel
+example : keepsAligned Cfg.fixed [.repr none (some .onehot)] wReprDiscrete = true := by decide +kernel
+
+/-- Noise(action) leaves the logged action un-noised … -/
+theorem noise_logged_counterexample :
+    keepsAligned Cfg.asIs [.noise none (some (.affine 1 10)) []] wNoiseLogged = false := by decide +kernel
+example : keepsAligned Cfg.fixed [.noise none (some (.affine 1 10)) []] wNoiseLogged = true := by decide +kernel
+
+/-- … and functional feedbacks keyed on the un-noised actions -/
+theorem noise_feedbacks_counterexample :
+    keepsAligned Cfg.asIs [.noise none (some (.affine 1 10)) []] wNoiseFeedbacks = false := by decide +kernel
+example : keepsAligned Cfg.fixed [.noise none (some (.affine 1 10)) []] wNoiseFeedbacks = true := by decide +kernel
+
+/-- Flatten does not flatten the logged action -/
+theorem flatten_logged_counterexample : keepsAligned Cfg.asIs [.flatten] wFlattenLogged = false := by decide +kernel
+example : keepsAligned Cfg.fixed [.flatten] wFlattenLogged = true := by decide +kernel
+
 end Coba.C10
